@@ -170,7 +170,7 @@ pub fn raw_case(c: &(u8, Vec<u64>, u8, bool), obs: &mut Obs) -> CaseResult {
 pub fn run(run: &mut Run) {
     umh::install();
     run.assume("lgdt executed in ring 3 traps; its 10-byte operand is read by the harness decoder. Capacities are the const parameters 1, 2, 3, 8, 9, 8192 (monomorphised)");
-    let n = run.cases(40_000, 2_000_000);
+    let n = run.cases(200_000, 8_000_000);
     run.sub(
         "appends",
         "for MAX in {1,2,3,8,9,8192}: histories of 0..12 appends of UserSegment(any u64) / SystemSegment(any u64, any u64) starting from empty() (or, for 8192, from a raw table filled to 0..5 slots below capacity), with load_unsafe() at a generated step; oracle: Vec<u64> model starting [0]: entries() raw = model after every append, selector = first_slot<<3 | DPL (bits 45-46 of the low word), TI=0, an append that does not fit panics and leaves entries()/limit() unchanged, limit = 8*len-1, clone equal, lgdt operand = (limit, address of slot 0); non-trivial = history with a system descriptor and a rejected append; distinct by (MAX, fill, descriptor-kind sequence)",
@@ -178,7 +178,7 @@ pub fn run(run: &mut Run) {
         (0u8..6, any::<u8>(), proptest::collection::vec(app(), 0..12), 0u8..12).prop_map(|(cap, start_below_cap, apps, load_at)| Hist { cap, start_below_cap, apps, load_at }),
         hist,
     );
-    let n = run.cases(20_000, 1_000_000);
+    let n = run.cases(100_000, 4_000_000);
     run.sub(
         "from_raw",
         "raw slices of every length 0..=MAX+1 (for 8192: 0..64 and 8191/8192/8193) with zero / non-zero first entry; oracle: reproduces the slice, or panics exactly for empty / non-zero first entry / too long",
